@@ -76,6 +76,10 @@ Section Matcher.
 
   Definition valid_pat (d : str) : bool := forallb (vc_valid chars) d.
 
+  (* a keyword is kept only if every byte is valid and none is one of the two anchors *)
+  Definition valid_kw (d : str) : bool :=
+    forallb (fun c => vc_valid chars c && negb (c =? ch_hat) && negb (c =? ch_dollar)) d.
+
   (* the keys one pattern contributes *)
   Definition full_keys (d : str) : list str :=
     if valid_pat d then [ch_hat :: d ++ [ch_dollar]] else [].
@@ -95,7 +99,7 @@ Section Matcher.
                   to_ac := to_ac s; regexps := regexps s; dom := touch (dom s) i; err := false |}
     | KSuffix => {| to_trie := app_at (to_trie s) i (flat_map suffix_keys pats);
                     to_ac := to_ac s; regexps := regexps s; dom := touch (dom s) i; err := false |}
-    | KKeyword => {| to_trie := to_trie s; to_ac := app_at (to_ac s) i pats;
+    | KKeyword => {| to_trie := to_trie s; to_ac := app_at (to_ac s) i (filter valid_kw pats);
                      regexps := regexps s; dom := touch (dom s) i; err := false |}
     | KRegex =>
         if forallb rx_ok pats
@@ -160,5 +164,9 @@ Definition abs_new (chars : list N) (keys : list str) : option (list str) :=
   if forallb (forallb (vc_valid chars)) keys then Some keys else None.
 Definition abs_has (keys : list str) (w : str) : bool := has_prefix keys w.
 
-(* the substring automaton the library is meant to be (used to state the keyword theorems) *)
+(* the substring automaton the library is meant to be ... *)
 Definition ac_ideal (pats : list str) (s : str) : bool := existsb (fun p => contains s p) pats.
+(* ... and what it is taken to do in the keyword theorems: Contains never tests the root's output flag,
+   so an empty pattern is never reported *)
+Definition ac_real (pats : list str) (s : str) : bool :=
+  existsb (fun p => match p with [] => false | _ => contains s p end) pats.
